@@ -22,3 +22,15 @@ type Plan struct {
 }
 
 var plans = map[string]Plan{}
+
+// addStages registers stages of a property's check; several engines may add
+// stages to one property (each from its own plans_<engine>.go).
+func addStages(prop, level string, assumptions []string, stages ...Stage) {
+	p := plans[prop]
+	if p.Level == "" {
+		p.Level = level
+	}
+	p.Stages = append(p.Stages, stages...)
+	p.Assumptions = append(p.Assumptions, assumptions...)
+	plans[prop] = p
+}
